@@ -521,6 +521,15 @@ class Vector(AutoSerialize):
             np.asarray(i) if isinstance(i, (list, np.ndarray)) else i for i in normalized
         )
 
+        # One-element index lists/arrays address a single position
+        idx_converted = tuple(
+            int(i.reshape(-1)[0]) if isinstance(i, np.ndarray) and i.size == 1 else i for i in idx_converted
+        )
+
+        # Fewer indices than fixed dimensions address every cell along the remaining axes
+        if len(idx_converted) < len(self.shape):
+            idx_converted = idx_converted + (slice(None),) * (len(self.shape) - len(idx_converted))
+
         # Check if we're doing slice‐ or array‐based (multi‐cell) indexing
         has_fancy = any(
             isinstance(i, slice) or (isinstance(i, np.ndarray) and i.size > 1)
